@@ -338,6 +338,26 @@ pub fn scalar_int_zoo(r: &B) -> Vec<Tagged> {
     for v in recoding_runs(256) {
         z.push((v, "recoding-run"));
     }
+    // ladder collisions: integers k >= r with bit j set whose low part L = k mod 2^j satisfies
+    // L = +-2^j (mod r): a left-to-right or right-to-left double-and-add then adds a point to itself
+    // (needs the doubling case of the addition law) or to its negative (identity intermediate) at step j
+    let mut j = r.bits() as usize;
+    while j <= r.bits() as usize + 8 {
+        let pw = b(1) << j;
+        for sign in [false, true] {
+            let base = if sign { (r - (&pw % r)) % r } else { &pw % r };
+            let mut l = base.clone();
+            let mut m = 0;
+            while l < pw && m < 4 {
+                z.push((&pw + &l, "ladder-collision"));
+                z.push((&pw + &l + (b(1) << 300), "ladder-collision"));
+                z.push((&pw + &l + (b(1) << (j + 1)), "ladder-collision"));
+                l += r;
+                m += 1;
+            }
+        }
+        j += 1;
+    }
     z
 }
 
